@@ -313,7 +313,7 @@ pub fn run(tier: Tier) -> Report {
   rep.assume("the attacker knows no password and no secret key: tokens are drawn from the stated grammar; CURVE/NOISE listeners accept any well-formed client key pair by design (no allow-list), which is outside this property");
   rep.assume("PLAIN does not authenticate the server: a peer playing the PLAIN server role towards a PLAIN connector (greeting PLAIN, WELCOME, READY) has completed the mechanism");
   rep.add(positive_sub());
-  rep.add(grammar_sub(tier, tier.pick(2, 3)));
+  rep.add(grammar_sub(tier, tier.pick(2, 4)));
   rep
 }
 
